@@ -217,10 +217,13 @@ type pcase struct {
 	seen     int
 }
 
-func newPCase(cd *chainData, discard bool) *pcase {
+func newPCase(cd *chainData, discard bool, retainK int) *pcase {
 	p := &pcase{cd: cd, genDoc: mkGenDoc(cd.ih)}
 	p.app = &recApp{valKey: chainPriv.PubKey()}
 	p.app.tick = p.tick
+	if retainK >= 0 {
+		p.app.hasRet, p.app.retainK = true, int64(retainK)
+	}
 	sdb := midDB{DB: dbm.NewMemDB(), p: p}
 	// storage.discard_abci_responses: per-height responses are not kept, the last one always is
 	p.inner = sm.NewStore(sdb, sm.StoreOptions{DiscardABCIResponses: discard})
@@ -328,6 +331,8 @@ func classify(s string) string {
 		return "panic-hash-block"
 	case strings.Contains(s, "state.AppHash does not match"):
 		return "panic-hash-state"
+	case strings.Contains(s, "could not find validator set for height"):
+		return "panic-validators-pruned"
 	case strings.Contains(s, "not persisting abci responses"):
 		return "err-resp-not-persisted"
 	case strings.Contains(s, "last stored abci responses") || strings.Contains(s, "no last ABCI response"):
@@ -365,8 +370,8 @@ func (p *pcase) line(hd string) string {
 	if len(delta) > 0 {
 		js = strings.Join(delta, ",")
 	}
-	return fmt.Sprintf("%s app=%d store=%d state=%d resp=%s wal=%d pv=%d heq=%s sc=%s up=%s live=%s j=%s", hd, h,
-		p.blockStore.Height(), st.LastBlockHeight, resp, p.walEnd, p.pvH, bit(bytes.Equal(hash, st.AppHash)), bit(sc), bit(p.up), bit(p.live), js)
+	return fmt.Sprintf("%s app=%d store=%d base=%d state=%d resp=%s wal=%d pv=%d heq=%s sc=%s up=%s live=%s j=%s", hd, h,
+		p.blockStore.Height(), p.blockStore.Base(), st.LastBlockHeight, resp, p.walEnd, p.pvH, bit(bytes.Equal(hash, st.AppHash)), bit(sc), bit(p.up), bit(p.live), js)
 }
 
 // the height stored under lastABCIResponseKey: probe the public API for the height it accepts
@@ -474,9 +479,21 @@ func (p *pcase) commit(k int, mid bool) string {
 		}
 		p.tick()
 		p.walEnd = h
-		_, _, err := be.ApplyBlock(state.Copy(), types.BlockID{Hash: block.Hash(), PartSetHeader: ps.Header()}, block)
+		_, retainHeight, err := be.ApplyBlock(state.Copy(), types.BlockID{Hash: block.Hash(), PartSetHeader: ps.Header()}, block)
 		if err != nil {
 			out = "apply-error:" + classify(err.Error())
+			return
+		}
+		// cs.pruneBlocks(retainHeight), consensus/state.go
+		if retainHeight > 0 {
+			base := p.blockStore.Base()
+			if retainHeight > base {
+				p.tick()
+				if _, err := p.blockStore.PruneBlocks(retainHeight); err == nil {
+					p.tick()
+					_ = p.stateStore.PruneStates(base, retainHeight)
+				}
+			}
 		}
 	})
 	switch {
